@@ -86,6 +86,34 @@ Theorem C10_atom_site_models : forall mv rows models,
     Forall2 (block_ok mv rows) models blocks.
 Proof. exact atom_site_models_partial. Qed.
 
+(* cif.read_cif: PROVIDED none of the other category handlers (header, title, compnd, source,
+   keywds, expdata, author, ssbond, cispep, cryst1, origxn, scalen, conect) raises, the call
+   returns and its coordinate records are exactly atom_site's, whatever those categories hold
+   (the harness checks the proviso on the real handlers for every generated file) *)
+Theorem C10_read_cif_atoms : forall (O : Type) mv rows (pre post : list (hres O)),
+  (forall h, In h (pre ++ post)%list -> exists p, h = Ok p) ->
+  o_exn (atom_site mv rows) = None ->
+  exists l errs, read_cif mv rows pre post = Ok (l, errs) /\ site_recs l = o_recs (atom_site mv rows).
+Proof. exact read_cif_atoms. Qed.
+
+(* the proviso cannot be dropped: one raising handler and the mmCIF route yields nothing *)
+Theorem C10_read_cif_handler_raises : forall (O : Type) mv rows (pre post : list (hres O)) e,
+  In (Err e) (pre ++ post)%list -> exists e', read_cif mv rows pre post = Err e'.
+Proof. exact read_cif_handler_raises. Qed.
+
+(* cif.read_cif as repaired by fix_c10_r4 (the 13 non-coordinate handlers go through
+   _optional_records): whatever those handlers do - return, or raise one of the caught
+   exceptions - the call returns and its coordinate records are exactly atom_site's *)
+Theorem C10_read_cif_guarded_atoms : forall (O : Type) mv rows (pre post : list (string * hres O)),
+  o_exn (atom_site mv rows) = None ->
+  exists l errs, read_cif_guarded mv rows pre post = Ok (l, errs) /\ site_recs l = o_recs (atom_site mv rows).
+Proof. exact read_cif_guarded_atoms. Qed.
+
+(* atom_site stays strict *)
+Theorem C10_read_cif_guarded_strict : forall (O : Type) mv rows (pre post : list (string * hres O)) e,
+  o_exn (atom_site mv rows) = Some e -> read_cif_guarded mv rows pre post = Err e.
+Proof. exact read_cif_guarded_strict. Qed.
+
 (* non-vacuity and regression: all former refutation witnesses and a row without auth
    names are expressible and agree under both conventions; the formal charge (1+, 2-),
    the author's names (HOH, CA1), the label fallback (CA, LYS) and -100.123 come back *)
@@ -109,4 +137,8 @@ Print Assumptions C10_cif_eq_pdb_both_conventions.
 Print Assumptions C10_mv_ok_needed.
 Print Assumptions C10_atom_site_single.
 Print Assumptions C10_atom_site_models.
+Print Assumptions C10_read_cif_atoms.
+Print Assumptions C10_read_cif_handler_raises.
+Print Assumptions C10_read_cif_guarded_atoms.
+Print Assumptions C10_read_cif_guarded_strict.
 Print Assumptions C10_guard_nonvacuous.
